@@ -95,11 +95,17 @@ def run(chk: Check) -> int:
             f"mismatches {st['mismatches']}, oracle failures {st['oracle_failures']}, "
             f"literal-loss differences {counter['literal_loss_differs_before_discard']}, ask-0 replay failures {counter.get('ask0_entry_breaks_replay', 0)}")
     return chk.finish(
-        rule="real runners with log=True under the controlled scheduler on Learner1D / SequenceLearner / AverageLearner / mock, "
+        rule="real runners with log=True under the controlled scheduler on Learner1D / SequenceLearner / AverageLearner / "
+             "IntegratorLearner / BalancingLearner(loss, npoints) / mock, 40% of the runs with ntasks=None and an executor whose "
+             "reported worker count grows and shrinks during the run (also below the number in flight), "
              "random schedules with cancellation, plus all completion subsets for small runs; the log is replayed with "
              "adaptive.runner.replay_log on learner.new(); non-trivial = logging on, no failed evaluation, an out-of-order or "
              "multiple completion and >= 5 steps; distinct by (spec, schedule)",
-        assumptions=["hand-written model Model/Runner.v tied to adaptive/runner.py by the sampled + small-scope-exhaustive correspondence",
+        assumptions=["runs with a resized pool (ntasks=None, changing worker count) are decided by the oracle alone: Model/Runner.v has a "
+                     "fixed _get_max_tasks(), so they are not replayed in Coq (count: elastic_pool_runs_oracle_only)",
+                     "the unchanged runner logs ('ask', 0) for a visit without a free slot; AverageLearner.ask(0) raises, so replay_log "
+                     "fails on such logs (counted as ask0_entry_breaks_replay; a finding only if listed as C19:replay_ask0_raises)",
+                     "hand-written model Model/Runner.v tied to adaptive/runner.py by the sampled + small-scope-exhaustive correspondence",
                      "C19_replay_same_state assumes learner.ask(0) leaves the learner unchanged; C19_replay_same_after_discard "
                      "assumes remove_unfinished commutes with tell and is idempotent (shown for an example learner in Props/C19.v; "
                      "for the real learners the oracle compares data, loss and next asks)",
